@@ -12,19 +12,83 @@
 (* inheritance: the chain of parents); the handler of a type is the        *)
 (* handler of the NEAREST type of its chain that defines one.              *)
 (*                                                                         *)
-(* `Cases[c]` is the set of types whose handler a subclass defines,        *)
-(* `PreMF`/`PreTR`/`PreDT` the handlers predefined by the base class.      *)
-(* TLC checks the laws of Resolve for every (type, case) and for every     *)
-(* subset of every ancestor chain, and prints the predicted table, one     *)
-(* case per step.                                                          *)
+(* A handler table of MultiFunction / Transformer is a set of ATTRIBUTE     *)
+(* NAMES: it defines a handler for type t iff it has an attribute whose    *)
+(* name is the handler name of t, HandlerName(Names[t]) -- the class name  *)
+(* `TypeName` written as `type_name` (a new word starts at a capital that  *)
+(* follows a lower-case letter or a digit; `Atan2` -> `atan2`, `EQ` ->     *)
+(* `eq`, `ExprList` -> `expr_list`).  `Names[t]` is the class name of t as *)
+(* a sequence of one-character strings.  The universe of types is the      *)
+(* import-time registry followed by late types (registered by the check    *)
+(* with @ufl_type in a child process) whose names vary the alphabet:       *)
+(* digits, runs of capitals, capitals after digits.                        *)
+(*                                                                         *)
+(* `Cases[c]` is the set of types whose handler a subclass defines (the    *)
+(* subclass is then built with exactly the attributes                      *)
+(* HandlerName(Names[t]), t \in Cases[c]); `AttrCases[c]` is the set of    *)
+(* candidate attribute names of a handler table of the library itself;     *)
+(* `AttrMF`/`AttrTR`/`AttrDT` the attribute names of the base classes (so   *)
+(* PreMF/PreTR/PreDT are the handlers predefined by the base class).       *)
+(* TLC checks the laws of HandlerName for every name over `Alphabet` up    *)
+(* to length `MaxLen` and for every registered name, the laws of Resolve   *)
+(* for every (type, case) and for every subset of every ancestor chain,    *)
+(* and prints the predicted tables (names, then one case per step).        *)
 (***************************************************************************)
 EXTENDS Naturals, Sequences, FiniteSets, TLC, Json
 
-CONSTANTS Bases, Cases, PreMF, PreTR, PreDT
+CONSTANTS Bases, Names, Cases, AttrCases, AttrMF, AttrTR, AttrDT, Alphabet, MaxLen
 
 NT == Len(Bases)
 Range(s) == {s[i] : i \in DOMAIN s}
 MinOf(S) == CHOOSE x \in S : \A y \in S : x <= y
+
+\* ---- handler names: TypeName -> type_name ----
+UpperS == <<"A","B","C","D","E","F","G","H","I","J","K","L","M","N","O","P","Q","R","S","T","U","V","W","X","Y","Z">>
+LowerS == <<"a","b","c","d","e","f","g","h","i","j","k","l","m","n","o","p","q","r","s","t","u","v","w","x","y","z">>
+DigitS == {"0","1","2","3","4","5","6","7","8","9"}
+IsUpper(c) == \E i \in 1..26 : UpperS[i] = c
+IsLower(c) == \E i \in 1..26 : LowerS[i] = c
+IsDigit(c) == c \in DigitS
+ToLower(c) == IF IsUpper(c) THEN LowerS[CHOOSE i \in 1..26 : UpperS[i] = c] ELSE c
+IsName(w) == Len(w) > 0 /\ \A i \in DOMAIN w : IsUpper(w[i]) \/ IsLower(w[i]) \/ IsDigit(w[i])
+
+\* the definition: a capital that follows a lower-case letter or a digit starts a new word
+StartsWord(w, i) == i > 1 /\ IsUpper(w[i]) /\ (IsLower(w[i - 1]) \/ IsDigit(w[i - 1]))
+RECURSIVE HNFrom(_, _)
+HNFrom(w, i) == IF i > Len(w) THEN <<>>
+                ELSE (IF StartsWord(w, i) THEN <<"_">> ELSE <<>>) \o <<ToLower(w[i])>> \o HNFrom(w, i + 1)
+HandlerName(w) == HNFrom(w, 1)
+
+\* the loop as coded (ufl/utils/formatting.py: camel2underscore), one call per iteration:
+\* `lastlower` = the previous character was a lower-case letter or a digit
+RECURSIVE C2U(_, _, _, _)
+C2U(w, i, lastlower, acc) ==
+  IF i > Len(w) THEN acc
+  ELSE LET c == w[i]
+           thislower == IsLower(c) \/ IsDigit(c)
+       IN C2U(w, i + 1, thislower,
+              acc \o (IF ~thislower /\ lastlower THEN <<"_">> ELSE <<>>) \o <<IF thislower THEN c ELSE ToLower(c)>>)
+
+Strip(s) == SelectSeq(s, LAMBDA c : c # "_")
+NameLaws(w) ==
+  LET h == HandlerName(w) IN
+  /\ h = C2U(w, 1, FALSE, <<>>)                                   \* the loop computes the definition
+  /\ Strip(h) = [i \in DOMAIN w |-> ToLower(w[i])]                \* the lower-case type name, split into words
+  /\ \A i \in DOMAIN h : ~IsUpper(h[i])
+  /\ Len(h) = Len(w) + Cardinality({i \in DOMAIN w : StartsWord(w, i)})
+  \* an underscore separates a word ending in a lower-case letter or a digit from a word starting with a letter
+  /\ \A i \in DOMAIN h : h[i] = "_" => /\ 1 < i /\ i < Len(h)
+                                       /\ (IsLower(h[i - 1]) \/ IsDigit(h[i - 1]))
+                                       /\ IsLower(h[i + 1])
+  /\ (\A i \in DOMAIN w : ~IsUpper(w[i])) => h = w
+NamesOver(A, n) == UNION {[1..m -> A] : m \in 1..n}
+
+HName == [t \in 1..NT |-> HandlerName(Names[t])]
+\* the types for which a table with the attribute names `attrs` defines a handler
+Defs(attrs) == {t \in 1..NT : HName[t] \in attrs}
+PreMF == Defs(AttrMF)
+PreTR == Defs(AttrTR)
+PreDT == Defs(AttrDT)
 
 \* ---- C3 linearisation of the UFL class graph ----
 RECURSIVE Merge(_)
@@ -54,20 +118,35 @@ Resolve(ty, D) ==
 
 \* ---- the table handed to the conformance check ----
 \* (DAGTraverser predefines what MultiFunction predefines -- nothing --, see the ASSUME)
+SetToSeq(S) == LET RECURSIVE F(_)
+                   F(T) == IF T = {} THEN <<>> ELSE LET m == MinOf(T) IN <<m>> \o F(T \ {m})
+               IN F(S)
 Row(c, D) == [case |-> c,
+              d  |-> SetToSeq(D),
               mf |-> [ty \in 1..NT |-> Resolve(ty, D \cup PreMF)],
               tr |-> [ty \in 1..NT |-> Resolve(ty, D \cup PreTR)]]
 ASSUME PreDT = PreMF
+\* two registered types never share a handler name (else a table could not tell them apart)
+ASSUME \A s, t \in 1..NT : s # t => HName[s] # HName[t]
+ASSUME \A t \in 1..NT : IsName(Names[t])
+
+NCases == Len(Cases) + Len(AttrCases)
+CaseSet(c) == IF c <= Len(Cases) THEN Cases[c] ELSE Defs(AttrCases[c - Len(Cases)])
 
 Init == /\ lin = LinTab /\ k = 0 /\ cur = {}
         /\ PrintT(ToJson([lin |-> LinTab]))
-NextCase == /\ k < Len(Cases) /\ k' = k + 1 /\ cur' = Cases[k + 1] /\ UNCHANGED lin
-            /\ PrintT(ToJson(Row(k + 1, Cases[k + 1])))
-Done == k = Len(Cases) /\ UNCHANGED vars
+        /\ PrintT(ToJson([names |-> HName, premf |-> SetToSeq(PreMF), pretr |-> SetToSeq(PreTR), predt |-> SetToSeq(PreDT)]))
+NextCase == /\ k < NCases /\ k' = k + 1 /\ cur' = CaseSet(k + 1) /\ UNCHANGED lin
+            /\ PrintT(ToJson(Row(k + 1, CaseSet(k + 1))))
+Done == k = NCases /\ UNCHANGED vars
 Next == NextCase \/ Done
 Spec == Init /\ [][Next]_vars
 
 \* ---- laws ----
+\* handler names: every name over the alphabet up to MaxLen, and every registered name
+NameLawsOK == k = 0 => /\ \A w \in NamesOver(Alphabet, MaxLen) : NameLaws(w)
+                       /\ \A t \in 1..NT : NameLaws(Names[t])
+
 Laws(ty, D) ==
   LET r == Resolve(ty, D) IN
   /\ r \in D \cup {0}
